@@ -101,7 +101,7 @@ PROPS = {
         assumptions=["integers in policies and data fit int64 (otherwise must.Int/DeepEqual panic: C09)", "or [] is true, as the UCAN specification and the in-tree tests require"],
     ),
     "C01": dict(
-        tie=["Ucan.Props.Tie.ChainLoad", "Ucan.Props.Tie.ChainProofs", "Ucan.Props.Tie.ChainOrder"],
+        tie=["Ucan.Props.Tie.ChainLoad", "Ucan.Props.Tie.ChainPrincipals", "Ucan.Props.Tie.ChainOrder"],
         props_module="Ucan.Props.C01",
         streams=["chain"],
         filter=_chain_filter(clauses=["principal", "load"]),
